@@ -674,7 +674,7 @@ pub fn c11(r: &mut Rng, t: u32, n: usize) -> Vec<Value> {
 pub fn c12(r: &mut Rng, t: u32, n: usize) -> Vec<Value> {
     let mut v = vec![];
     while v.len() < n {
-        let (c, f): (i128, u8) = match r.below(8) {
+        let (c, f): (i128, u8) = match r.below(9) {
             0 | 1 | 2 => {
                 // exact midpoint (2m+1) * 2^(e-1) with a finite decimal expansion of <= 18 digits, +-1 unit
                 let fb: u32 = if r.bool() { 52 } else { 23 };
@@ -694,9 +694,26 @@ pub fn c12(r: &mut Rng, t: u32, n: usize) -> Vec<Value> {
                 let (c, f) = match c.checked_mul(p10(extra)) { Some(c2) => (c2, f + extra as u8), None => (c, f) };
                 (neg1!(r, c.saturating_add(r.range(-1, 1) as i128)), f)
             }
+            6 => {
+                // midpoints of adjacent floats at every magnitude the coefficient allows: (2m+1) * 2^(e-1) * 10^f, then a
+                // small offset above / below it (units, 2^32, multiples of 2^64: sticky-bit and truncation paths)
+                let fb: u32 = if r.bool() { 52 } else { 23 };
+                let f = 1 + r.below(18) as u32;
+                let m: u128 = (1u128 << fb) | (r.u128() & ((1u128 << fb) - 1));
+                let odd = 2 * m + 1;
+                let room = 126u32.saturating_sub(128 - (odd * (p10(f) as u128)).leading_zeros());
+                if (odd.checked_mul(p10(f) as u128)).is_none() || room == 0 { continue; }
+                let e1 = room - r.below((room as u64).min(8)) as u32;
+                let base = (odd * p10(f) as u128) << e1;
+                if base > MAXC as u128 { continue; }
+                let off: i128 = match r.below(8) { 0 => 0, 1 => 1, 2 => -1, 3 => 1 << 32, 4 => 1 << 64, 5 => 3 << 64, 6 => -(1 << 64), _ => (r.below(9) as i128 + 1) << 64 };
+                let c = (base as i128).saturating_add(off);
+                (neg1!(r, if c == i128::MIN || c <= 0 { base as i128 } else { c }), f as u8)
+            }
             3 => (neg1!(r, (1i128 << r.below(127)).saturating_add(r.range(-1, 1) as i128)), r.below(19) as u8), // binade edges
             4 => (neg1!(r, r.below(1000) as i128), 18),
             5 => (coeff(r), 0), // integer-valued: primitive cast path
+            7 | 8 => decimal(r),
             _ => decimal(r),
         };
         v.push(json!({"ev": "tofloat", "t": t, "x": dj(c, f)}));
@@ -772,6 +789,15 @@ pub fn c14(r: &mut Rng, t: u32, n: usize) -> Vec<Value> {
                         v.push(json!({"ev": "toint", "t": t, "ty": ty, "x": dj(c, f as u8)}));
                     }
                     None => v.push(json!({"ev": "toint", "t": t, "ty": ty, "x": dj(if b == i128::MIN { -MAXC } else { b }, 0)})),
+                }
+            }
+            3 => {
+                // d * 10^k written with f <= k fractional zeros
+                let k = r.below(38) as u32;
+                let f = r.below((k.min(18) + 1) as u64) as u32;
+                let d = 1 + r.below(999) as i128;
+                if let Some(c) = d.checked_mul(p10(k)) {
+                    v.push(json!({"ev": "toint", "t": t, "ty": ty, "x": dj(neg1!(r, c), f as u8)}));
                 }
             }
             _ => {
@@ -924,7 +950,7 @@ pub fn c17(r: &mut Rng, t: u32, n: usize) -> Vec<Value> {
 pub fn c19_ops(r: &mut Rng, t: u32, n: usize) -> Vec<Value> {
     let mut v = vec![];
     while v.len() < n {
-        match r.below(9) {
+        match r.below(11) {
             0 | 1 => v.push(set_mode(r, t)),
             2 => v.push(json!({"ev": "get", "t": t})),
             3 => {
@@ -949,6 +975,16 @@ pub fn c19_ops(r: &mut Rng, t: u32, n: usize) -> Vec<Value> {
                 // x / 2 with x odd at scale 18: tie in the 19th place
                 let x = r.range(-99, 99) as i128 * 2 + 1;
                 v.push(bin(t, "div", dj(x, 18), "dec", dj(2, 0), "dec", 0, 0));
+            }
+            9 => {
+                // 256-bit paths: (10^20 + 2k + 1) * 5 * 10^20 at 11 + 12 fractional digits (tie in the 19th place), and a wide quotient
+                let x = p10(20) + 2 * r.below(50) as i128 + 1;
+                if r.bool() {
+                    v.push(bin(t, if r.bool() { "mul" } else { "mul_rounded" }, dj(neg1!(r, x), 11), "dec", dj(5 * p10(20), 12), "dec", 18, 0));
+                } else {
+                    let (a, b) = tie_construct(r, 30);
+                    v.push(bin(t, "div_rounded", dj(neg1!(r, a), 0), "dec", dj(b, 12), "dec", 18, 0));
+                }
             }
             _ => {
                 let c = (r.range(-50, 50) as i128) * 10 + neg1!(r, 5);
